@@ -260,6 +260,16 @@ def observe_eval(case, opts=None):
         try:
             lg, lp, index, keep = build_labels(frames, n_nodes, two_videos=bool(opts.get("two_videos")), media=bool(opts.get("media_video")), stale=bool(opts.get("stale_hidden")),
                                                   separate=bool(opts.get("separate_files")), sparse=bool(opts.get("sparse_frames")), order_seed=opts.get("pr_order"))
+            if opts.get("edited_between"):
+                # the predictions are moved in place, evaluated by a throw-away Evaluator, and moved back: the judged evaluation
+                # is a function of the labels as they ARE, not of what some earlier evaluation saw (seed C16_r14)
+                for lf in lp:
+                    for inst in lf.instances:
+                        inst.points["xy"][:] = inst.points["xy"] + 8.0
+                E.Evaluator(lg, lp, oks_stddev=stddev, oks_scale=scale, match_threshold=thr, user_labels_only=bool(opts.get("user_labels_only", True))).evaluate()
+                for lf in lp:
+                    for inst in lf.instances:
+                        inst.points["xy"][:] = inst.points["xy"] - 8.0
             ev = E.Evaluator(lg, lp, oks_stddev=stddev, oks_scale=scale, match_threshold=thr, user_labels_only=bool(opts.get("user_labels_only", True)))
             import copy
             m1 = copy.deepcopy(ev.evaluate())
